@@ -2,6 +2,7 @@ import OV.Model.C10VersionConv
 import OV.Model.C10Fallback
 import OV.Model.C10Names
 import OV.Model.C10Imports
+import OV.Model.C10Meta
 import OV.Drivers.Loop
 /-! Line-protocol driver for C10.
 
@@ -226,6 +227,42 @@ def handle (args : List String) : String :=
       let m : Imports.M := { imports := i, usedMain := (parseNames u).map dom, funcs := fs }
       let res := Imports.protoRebuild i (Imports.converted m t)
       pure (",".intercalate (res.map (fun e => s!"{if e.1 == "" then "@" else e.1}:{e.2}")))
+    r.getD "bad-op"
+  | "meta" :: og :: od :: cg :: cd :: items =>
+    -- meta og=<props> od=<doc|_> cg=<props> cd=<doc|_> {ON|CN <name|_> <op> <dom|@> <doc|_> <props>}* {OV|CV <name> <doc|_> <props>}*
+    let r : Option String := do
+      let us (x : String) : String := if x == "_" then "" else x
+      let parseProps (x : String) : Option Meta.Props :=
+        (parseNames x).mapM (fun e => match e.splitOn "=" with
+          | [k, v] => some (k, v)
+          | _ => none)
+      let showProps (d : Meta.Props) : String := if d.isEmpty then "-" else ",".intercalate (d.map (fun e => s!"{e.1}={e.2}"))
+      let ogp ← (kv "og" og) >>= parseProps
+      let odd ← kv "od" od
+      let cgp ← (kv "cg" cg) >>= parseProps
+      let cdd ← kv "cd" cd
+      let rec go : List String → (List Meta.N × List Meta.V × List Meta.N × List Meta.V) → Option (List Meta.N × List Meta.V × List Meta.N × List Meta.V)
+        | [], acc => some acc
+        | "ON" :: nm :: op :: dm :: dc :: pr :: rest, (a, b, c, d) => do
+          let p ← parseProps pr
+          go rest (a ++ [{ name := optStr nm, op := op, domain := (if dm == "@" then "" else dm), doc := us dc, props := p }], b, c, d)
+        | "CN" :: nm :: op :: dm :: dc :: pr :: rest, (a, b, c, d) => do
+          let p ← parseProps pr
+          go rest (a, b, c ++ [{ name := optStr nm, op := op, domain := (if dm == "@" then "" else dm), doc := us dc, props := p }], d)
+        | "OV" :: nm :: dc :: pr :: rest, (a, b, c, d) => do
+          let p ← parseProps pr
+          go rest (a, b ++ [{ name := nm, doc := us dc, props := p }], c, d)
+        | "CV" :: nm :: dc :: pr :: rest, (a, b, c, d) => do
+          let p ← parseProps pr
+          go rest (a, b, c, d ++ [{ name := nm, doc := us dc, props := p }])
+        | _, _ => none
+      let (on, ov, cn, cv) ← go items ([], [], [], [])
+      let res := Meta.restore { props := ogp, doc := us odd, nodes := on, values := ov }
+                              { props := cgp, doc := us cdd, nodes := cn, values := cv }
+      let sd (x : String) : String := if x == "" then "_" else x
+      pure (";".intercalate ([s!"G:{showProps res.props}:{sd res.doc}"] ++
+        res.nodes.map (fun n => s!"N:{showProps n.props}:{sd n.doc}") ++
+        res.values.map (fun v => s!"V:{showProps v.props}:{sd v.doc}")))
     r.getD "bad-op"
   | ["names", used, sizes] =>
     let r : Option String := do
